@@ -467,7 +467,7 @@ def run(res):
         if a != b:
             diffs.append(i)       # every difference is reported (key "corr"); the model follows /repo as it is
 
-    if modelled < 20000 or len([1 for r in impl if r.startswith("ok")]) < 10000:
+    if modelled < 20000 or modelled * 10 < len(ops) * 9 or len([1 for r in impl if r.startswith("ok")]) < 10000:
         res.violation("the correspondence is not exercised: %d model lines, %d accepted lines" % (modelled, len([1 for r in impl if r.startswith("ok")])),
                       {"model_lines": modelled}, False, key="empty-sweep")
     kinds = {}
